@@ -205,3 +205,7 @@ def run(P: Program, R: Report, tier: str) -> None:
     from .memo import no_stale_memo
 
     no_stale_memo(P, R, "R08.8")
+    # ---- R08.9 the annotator maintains the attribute the queries read (key names threaded from the feature dictionary)
+    from .annot import keys_threaded
+
+    keys_threaded(P, R, "R08.9", only=('position',))
